@@ -34,16 +34,14 @@ CFG = {
         "result with >= 2 chunks": r"^dump b[45]\d .*nc=[2-9]",
     },
     "gaps": [
-        "Kernel (Lemmas/MultiKernel.lean, a structure of named hypotheses, no axiom): the 11 `_partial` theorems take `(K : Kernel)`. Its fields are facts about code multiops.rs only calls: elems of a valid store are strictly ascending u16s; Store.isEmpty <-> no elements; Store::to_bitmap keeps the elements; membership laws of Store |= / ^= (owned and & forms); ensure_correct_store on a non-empty valid store gives the canonical kind with the same elements; whole-bitmap `&=` (owned, &) and `-= &` of ops.rs equal sAnd / sSub on elems and preserve WF. To be discharged by the store/algebra families.",
-        "WF / StoreValid are defined locally in Lemmas/MultiKernel.lean (DESIGN §4 wording); to be unified with the shared definition at merge.",
+        "no proof gap in the fold equalities: the record Kernel (Lemmas/MultiKernel.lean) of facts about code multiops.rs only calls is inhabited by Multi.kernel (Lemmas/MultiKernelProof.lean) from the core library, the algebra family's store theorems and C02 (C02_and_ao / C02_and_ar / C02_sub_ar; the copies of the three whole-bitmap operators in MultiOps.lean are proved equal to Ops.lean's andAO / andAR / subAR); the 11 fold-equality theorems are unconditional and stated with Bitmap.WF (Multi.wf_iff : Multi.WF b <-> Bitmap.WF b)",
         "size_hint: theorems assume Hint.Admissible (to_collect > 0 or the sequence is empty), which every truthful size_hint satisfies (proved: exact, None, upper k with n <= k, and any positive upper bound). An iterator that yields items after promising at most 0 makes union/intersection return the empty set (model and code agree; outside the property).",
-        "Kernel-free (fully proved): error in the first item; first error anywhere for union/xor; error-or-empty for intersection/difference; empty sequence. Proved inside the _partial theorems without using K's operator fields: collection thresholds, independence of the sort permutation, empty-first shortcut, early return, merge_container_owned/ref incl. promotion and copy-on-write (reduced to the owned form), clean-up.",
     ],
     "theorem_samples": [
-        {"theorem": "C09_fold_partial", "statement": "(K : Kernel) (op) (h : Hint) (l : List Bitmap) (hh : Hint.Admissible h l.length) (hwf : ∀ b ∈ l, WF b) : elems (multiOwned op h l) = Spec.multi (specOp op) (l.map elems) ∧ elems (multiRef op h l) = Spec.multi (specOp op) (l.map elems)"},
-        {"theorem": "C09_union_owned_partial", "statement": "(K : Kernel) (sort) (hs : IsSortDesc nContainers sort) (h) (xs : List (Except ε Bitmap)) (hh : Hint.Admissible h xs.length) (hwf : ∀ b ∈ okValues xs, WF b) : (tryMultiOrOwnedWith sort h xs).map elems = match firstError xs with | some e => .error e | none => .ok (Spec.multi .or ((okValues xs).map elems))"},
+        {"theorem": "C09_fold", "statement": "(op) (h : Hint) (l : List Bitmap) (hh : Hint.Admissible h l.length) (hwf : ∀ b ∈ l, Bitmap.WF b) : elems (multiOwned op h l) = Spec.multi (specOp op) (l.map elems) ∧ elems (multiRef op h l) = Spec.multi (specOp op) (l.map elems)"},
+        {"theorem": "C09_union_owned", "statement": "(sort) (hs : IsSortDesc nContainers sort) (h) (xs : List (Except ε Bitmap)) (hh : Hint.Admissible h xs.length) (hwf : ∀ b ∈ okValues xs, Bitmap.WF b) : (tryMultiOrOwnedWith sort h xs).map elems = match firstError xs with | some e => .error e | none => .ok (Spec.multi .or ((okValues xs).map elems))"},
         {"theorem": "C09_first_error_union_xor_owned", "statement": "(sort) (hs : ∀ l, (sort l).Perm l) (h) (xs) (e) (hh : Hint.Admissible h xs.length) (hfe : firstError xs = some e) : tryMultiOrOwnedWith sort h xs = .error e ∧ tryMultiXorOwned xs = .error e"},
     ],
     "level_text": "Theorems (Lean 4, kernel-checked) that the model of every MultiOps entry point (owned, borrowed, Result items) returns the left fold of the binary set operation for every sequence, every size_hint and every admissible order of the internal sort, plus the Result laws; the model (multiops.rs mirrored line by line) is tied to the Rust source by running both on generated operand sequences in two build profiles. Unbounded quantifier = theorem; tie = sampled.",
-    "level_note": "PARTIAL: 6 theorems (Result/error laws, empty sequence) are proved outright; the 11 fold-equality theorems are proved modulo the named hypothesis bundle `Kernel` (store-level |=, ^=, to_bitmap, ensure_correct_store, elems facts, and the three whole-bitmap &= / -= operators of ops.rs) which other families discharge - see coverage.proof_gaps. Trusted: Lean kernel; the hand-written model mirrors the code (checked by correspondence on generated sequences only); Spec.lean/SpecMulti.lean as the meaning; std Vec/binary_search/sort_unstable_by_key/Cow modelled by their contracts (the sort as any key-sorted permutation).",
+    "level_note": "All 17 theorems (6 Result/error laws and empty sequence, 11 fold equalities) are proved unconditionally for well-formed operands. Trusted: Lean kernel; the hand-written model mirrors the code (checked by correspondence on generated sequences only); Spec.lean/SpecMulti.lean as the meaning; std Vec/binary_search/sort_unstable_by_key/Cow modelled by their contracts (the sort as any key-sorted permutation).",
 }
